@@ -193,62 +193,66 @@ def _acceptor(case):
         ae.timeout = 3600
         ae.add_scp(sopclass.qr_find_scp)
         world.serve_ae(ae, ADDR)
-        out = {}
+        # two successive associations with byte-identical requests: what the first one
+        # negotiated must not colour the second
+        for rnd_no in (0, 1):
+            del queries[:]
+            out = {}
 
-        def script(peer):
-            p = peer.associate()
-            out['reply'] = p
-            if not isinstance(p, dict) or p['kind'] != 'A-ASSOCIATE-AC':
-                return
-            announced = peer.peer_max
-            qsize = sizes[2]
-            peer.send_message(1, {0x0002: FIND, 0x0100: 0x0020, 0x0110: 7, 0x0700: 0, 0x0800: 1},
-                              rc_ds(qsize), max_length=announced)
-            out['q'] = qsize
-            got = []
-            for _ in range(len(sizes) + 1):
-                m = peer.read_message(timeout=900.0)
-                if not isinstance(m, dict) or 'fields' not in m:
-                    break
-                got.append(len(m['data'] or b''))
-            out['got'] = got
-            peer.release()
-        peer = peers.ScriptedRequestor(world.sim, world.net, ADDR, ((1, FIND, (rc.IMPLICIT_LE,)),),
-                                       max_length=pmax, script=script)
-        world.peers.append(peer)
-        world.spawn(peer.run, 'peer', role='user')
-        world.run(tmax=4000)
-        world.drain(2.0)
-        pair = 'local=%s peer=%s' % (_zero(local), _zero(pmax))
-        if peer.ac is None:
-            _v(viol, 'association-not-accepted %s' % pair, 'reply %r errors %r handler %r' % (
-                out.get('reply'), peer.errors, world.handler_errors[:1]), case)
-        else:
-            ann = [x[1] for x in peer.ac['user_info'] if x[0] == 'max_length']
-            if len(ann) != 1:
-                _v(viol, 'max-length-item-count', repr(ann), case)
+            def script(peer):
+                p = peer.associate()
+                out['reply'] = p
+                if not isinstance(p, dict) or p['kind'] != 'A-ASSOCIATE-AC':
+                    return
+                announced = peer.peer_max
+                qsize = sizes[2]
+                peer.send_message(1, {0x0002: FIND, 0x0100: 0x0020, 0x0110: 7, 0x0700: 0, 0x0800: 1},
+                                  rc_ds(qsize), max_length=announced)
+                out['q'] = qsize
+                got = []
+                for _ in range(len(sizes) + 1):
+                    m = peer.read_message(timeout=900.0)
+                    if not isinstance(m, dict) or 'fields' not in m:
+                        break
+                    got.append(len(m['data'] or b''))
+                out['got'] = got
+                peer.release()
+            peer = peers.ScriptedRequestor(world.sim, world.net, ADDR, ((1, FIND, (rc.IMPLICIT_LE,)),),
+                                           max_length=pmax, script=script)
+            world.peers.append(peer)
+            world.spawn(peer.run, 'peer', role='user')
+            world.run(tmax=4000)
+            world.drain(2.0)
+            pair = 'local=%s peer=%s%s' % (_zero(local), _zero(pmax), '' if rnd_no == 0 else ' second-association')
+            if peer.ac is None:
+                _v(viol, 'association-not-accepted %s' % pair, 'reply %r errors %r handler %r' % (
+                    out.get('reply'), peer.errors, world.handler_errors[:1]), case)
             else:
-                a = ann[0]
-                # "announces a value it is itself prepared to receive (its configured maximum or
-                # less)": 0 means unlimited, so 0 is only allowed when configured 0
-                if (a == 0 and local != 0) or (local != 0 and a > local):
-                    _v(viol, 'announced-more-than-configured %s' % pair,
-                       'announced %r configured %r (peer announced %r)' % (a, local, pmax), case)
-            for p in peer.pdata:
-                if pmax and p['length'] > pmax:
-                    _v(viol, 'pdata-longer-than-peer-maximum', 'length %d > %d' % (p['length'], pmax),
-                       case)
-                    break
-            if queries != [out.get('q')]:
-                _v(viol, 'messages-not-received-from-peer %s' % pair,
-                   'peer sent a %r-byte query within the announced limit; handler saw %r; '
-                   'handler errors %r' % (out.get('q'), queries, world.handler_errors[:1]), case)
-            elif out.get('got') != sizes + [0]:
-                _v(viol, 'messages-not-delivered-to-peer %s' % pair,
-                   'handler yielded sizes %r, peer completely received %r; handler errors %r' % (
-                       sizes, out.get('got'), world.handler_errors[:1]), case)
-            for e in peer.errors:
-                _v(viol, 'peer-saw-protocol-error', e, case)
+                ann = [x[1] for x in peer.ac['user_info'] if x[0] == 'max_length']
+                if len(ann) != 1:
+                    _v(viol, 'max-length-item-count', repr(ann), case)
+                else:
+                    a = ann[0]
+                    # "announces a value it is itself prepared to receive (its configured maximum or
+                    # less)": 0 means unlimited, so 0 is only allowed when configured 0
+                    if (a == 0 and local != 0) or (local != 0 and a > local):
+                        _v(viol, 'announced-more-than-configured %s' % pair,
+                           'announced %r configured %r (peer announced %r)' % (a, local, pmax), case)
+                for p in peer.pdata:
+                    if pmax and p['length'] > pmax:
+                        _v(viol, 'pdata-longer-than-peer-maximum', 'length %d > %d' % (p['length'], pmax),
+                           case)
+                        break
+                if queries != [out.get('q')]:
+                    _v(viol, 'messages-not-received-from-peer %s' % pair,
+                       'peer sent a %r-byte query within the announced limit; handler saw %r; '
+                       'handler errors %r' % (out.get('q'), queries, world.handler_errors[:1]), case)
+                elif out.get('got') != sizes + [0]:
+                    _v(viol, 'messages-not-delivered-to-peer %s' % pair,
+                       'handler yielded sizes %r, peer completely received %r; handler errors %r' % (
+                           sizes, out.get('got'), world.handler_errors[:1]), case)
+                for e in peer.errors:
+                    _v(viol, 'peer-saw-protocol-error', e, case)
         return _fin(world, viol, case)
     finally:
         world.close()
